@@ -210,7 +210,7 @@ struct client {
 			strncpy(a.sun_path, p.c_str(), sizeof(a.sun_path) - 1);
 			if (connect(fd, (sockaddr *)&a, sizeof(a)) != 0) return false;
 		}
-		for (int i = 0; i < 40000 && accept_count == before; i++) usleep(50);
+		for (int i = 0; i < 400000 && accept_count == before; i++) usleep(50);   /* up to ~20 s on an overloaded machine */
 		srv_fd = (accept_count == before) ? -1 : int(last_accepted_fd);
 		g_track_fd = srv_fd;
 		return true;
@@ -239,7 +239,7 @@ struct client {
 		return true;
 	}
 	// read some bytes with an inactivity timeout; returns 0 on EOF, -1 on timeout/error
-	int read_some(std::string &buf, int timeout_ms = 4000)
+	int read_some(std::string &buf, int timeout_ms = 12000)
 	{
 		pollfd p; p.fd = fd; p.events = POLLIN; p.revents = 0;
 		int r = poll(&p, 1, timeout_ms);
